@@ -711,6 +711,19 @@ impl BatchSemaphore {
         let cx = &mut Context::from_waker(&waker);
         let _poll = acquire.as_mut().poll(cx);
 
+        // The upgrade must be atomic: the caller keeps excluding everyone its current permits exclude until it
+        // holds `permits_to_be_held`. Requests that queued up before the upgrade (e.g. a writer waiting for the
+        // caller's read permit) must therefore not be served from the permits given back below, so the upgrade
+        // goes to the head of the queue.
+        {
+            let mut state = self.state.borrow_mut();
+            if let Some(pos) = state.waiters.iter().position(|w| Arc::ptr_eq(w, &acquire.waiter)) {
+                if let Some(waiter) = state.waiters.remove(pos) {
+                    state.waiters.push_front(waiter);
+                }
+            }
+        }
+
         self.release(permits_currently_held);
 
         *Pin::into_inner(acquire)
